@@ -19,7 +19,7 @@ from concurrent.futures import ThreadPoolExecutor
 
 VERIF = os.path.dirname(os.path.dirname(os.path.abspath(__file__)))
 REPO = os.environ.get("VERIF_REPO", "/repo")
-CACHE = os.path.join(VERIF, ".cache")
+CACHE = os.environ.get("VERIF_CACHE_DIR") or os.path.join(VERIF, ".cache")
 BIN = os.path.join(VERIF, "bin")
 CONTROLS = os.path.join(VERIF, "controls")
 RESOURCE_DIR = "/usr/lib/llvm-14/lib/clang/14.0.6"
@@ -122,6 +122,9 @@ class Substrate:
                    "-DCMAKE_BUILD_TYPE=RelWithDebInfo"]
             cc = os.path.join(REPO, "_build", "CMakeCache.txt")
             opts = _cache_options(cc) if os.path.exists(cc) else {}
+            # tests are never analysed; leaving them out avoids needing
+            # third_party/googletest in scratch copies
+            opts["DRACO_TESTS"] = "OFF"
             for k, v in sorted(opts.items()):
                 cmd.append("-D%s=%s" % (k, v))
             r = subprocess.run(cmd, stdout=subprocess.PIPE,
